@@ -416,6 +416,7 @@ class CallMixin:
         for s_ in sites:
             if s_['ordinal'] is not None and s_['ordinal'] != node_ord:
                 continue
+            self.__dict__.setdefault('fired_sites', set()).add((s_['caller'], s_['callee'], s_['ordinal']))
             for j, text, tags in self.clauses(s_['asserts']):
                 v = self.ev1(self.parse_spec(text), st, cf)
                 self.oblige(st, '%s#site[%s@%s].%s' % (fr.prefix, short, node_ord, j), truthy(v), {'text': text, 'tags': tags})
